@@ -219,12 +219,12 @@ class RF24:
         """Open a data pipe for TX transmissions."""
         if len(address) > 5:
             raise ValueError("address length cannot exceed 5 bytes")
-        if self._aa & 1:
-            for i, val in enumerate(address):
-                self._pipes[0][i] = val  # type: ignore[assignment, index]
-            self._reg_write_bytes(RX_ADDR_P0, address)
         for i, val in enumerate(address):
             self._tx_address[i] = val
+        if self._aa & 1:
+            for i, val in enumerate(self._tx_address):
+                self._pipes[0][i] = val  # type: ignore[assignment, index]
+            self._reg_write_bytes(RX_ADDR_P0, self._tx_address)
         self._reg_write_bytes(TX_ADDRESS, address)
 
     def close_rx_pipe(self, pipe_number: int) -> None:
